@@ -55,6 +55,7 @@ class FactBase:
         self.adts = {}
         self.aliases = {}
         self.crates = {}
+        self._canon = None
         for fn in sorted(os.listdir(directory)):
             if not fn.endswith(".json"):
                 continue
@@ -75,6 +76,23 @@ class FactBase:
     def fn(self, path):
         return self.items.get(path)
 
+    def lookup(self, name):
+        """item for a callee name as printed from any workspace crate (trait-impl paths are printed differently
+        inside and outside their crate: `cr::<a::T as tr::Trait>::m` vs `<cr::a::T as x::tr::Trait>::m`)"""
+        if not name:
+            return None
+        it = self.items.get(name)
+        if it is not None:
+            return it
+        if self._canon is None:
+            self._canon = {}
+            for p_, it_ in self.items.items():
+                if "<" in p_ and " as " in p_:
+                    self._canon.setdefault(canon(p_), it_)
+        if "<" in name and " as " in name:
+            return self._canon.get(canon(name))
+        return None
+
     def need(self, path):
         it = self.items.get(path)
         if it is None:
@@ -94,6 +112,23 @@ class FactBase:
 
     def closures_of(self, parent_path):
         return [it for p, it in sorted(self.items.items()) if it.kind == "Closure" and it.get("parent") == parent_path]
+
+
+WS_CRATES = ("zerokit_utils::", "rln::", "rln_cli::", "zkfix::")
+
+
+def canon(name):
+    """crate-position-independent form of a trait-impl path"""
+    n = name
+    for c in WS_CRATES:
+        n = n.replace(c, "")
+    # trait path -> last segment (re-exports print differently per crate)
+    def last(m):
+        t = m.group(1)
+        head = t.split("<")[0].split("::")[-1]
+        return " as " + head + (("<" + t.split("<", 1)[1]) if "<" in t else "") + ">::"
+    n = re.sub(r" as ([^>]*?(?:<[^<>]*>)?[^>]*?)>::", last, n, count=1)
+    return n
 
 
 class MissingAnchor(Exception):
